@@ -644,6 +644,7 @@ func (m *Manager) acquireTasks(envId uid.ID, taskDescriptors Descriptors) (err e
 	// Finally, we write to the roster. Point of no return!
 	for taskPtr := range deployedTasks {
 		m.roster.append(taskPtr)
+		verifhook.Point("task.roster.appended", "task", taskPtr.taskId)
 	}
 	if deploymentSuccess {
 		for taskPtr := range deployedTasks {
